@@ -7,6 +7,7 @@
         kind: 1 = LZMA_FILTER_LZMA1, 2 = LZMA_FILTER_LZMA1EXT, 3 = LZMA_FILTER_LZMA2
         answer: "<lzma_ret> <in_pos> <out_pos> <out hex>"; rawmulti answers "9" alone for LZMA_DATA_ERROR
         (positions at a data error depend on the slicing) and maps the final LZMA_BUF_ERROR to 0.
+    rawr / rawmultir: same answers (the harness runs them on a reused lzma_stream; the model has no handle state).
     dict <dictsize> <presethex> <ops…>   index-level dictionary model (LzDict.Dict), see `dictOps`
 -/
 import XzVerif.Model.Proto
@@ -136,7 +137,11 @@ def dictOps (d : Dict) (ops : List String) (acc : String) : String :=
       | none => "bad-op"
     | _ => "bad-op"
 
-def step (_ : Unit) (ws : List String) : Unit × String :=
+def step (_ : Unit) (ws0 : List String) : Unit × String :=
+  let ws := match ws0 with
+    | "rawr" :: rest => "raw" :: rest
+    | "rawmultir" :: rest => "rawmulti" :: rest
+    | other => other
   match ws with
   | "raw" :: rest =>
     match parseCommon (rest.take 9), rest.drop 9 with
